@@ -78,7 +78,7 @@ def expr_str():
 
 HOSTILE_ATOMS = list("ab1 _.-/:[],<>{}$#§→⊕∧|&+~%=;()\"\\'") + [
     "\n", "\t", "\u00e9", "e\u0301", "\U0001F600", "::", "//", "true", "null", "vs", "->", "<->", "```", "===", "---",
-    "\x0c", "\x85", "\u2028", "\x1c", "\r"]  # (FF, NEL, LS, FS: line breaks for str.splitlines(), ordinary data for OCTAVE)
+    "\x0c", "\x85", "\u2028", "\x1c", "\r", "\\u0041", "\\x41", "\\N{DASH}", "%41"]  # (FF, NEL, LS, FS: line breaks for str.splitlines(), ordinary data for OCTAVE)
 
 
 def nearbare():
@@ -94,6 +94,8 @@ def nearbare():
         st.builds(lambda a, b, c: f"{a}.{b}-{c}", seg, seg, seg),
         st.builds(lambda a: "§" + a, seg),
         st.sampled_from(["1.2.3", "1.0-beta", "1.0+b", "6.02e+23", "1e5", "-0", "2.5E-7", "1.", ".5", "1.2.3-", "0x1F"]),
+        # a number glued to a suffix: the text of the number must survive as written
+        st.sampled_from(["12.50%", "007%", "1e3%", "0.10%", "100%_complete", "+5%", "-0%", "1.0%", "60%", "5.0kg", "1_000", "3.140"]),
         # path and URL shapes: '.', '/' and '-' are identifier characters for the lexer, '//' starts a comment
         st.sampled_from(["//cdn.example.com/lib.js", "//server/share", "//", "/", "/usr/bin", "./x", "../up", "a//b",
                          "docs/guide.md", "a/b", "/-", "http://x.y/z", "x//", ".hidden", "a/true", "-/"]),
@@ -124,6 +126,9 @@ def str_value(avoid: frozenset = frozenset()):
         st.builds(lambda w: "§" + w, st.one_of(WORD, st.sampled_from(["1", "3", "12"]))).map(S("secref")),
         expr_str().map(S("expr")),
         st.builds(lambda a, b: f"{a}<{b}>", WORD, WORD).map(S("annotation")),
+        # annotation shape with a non-ASCII letter: always quoted canonically; NAME{q} with such a name is repaired by the
+        # lenient tokenizer and (documented limitation) may be refused by octave_write(lenient=true)
+        st.sampled_from(["CAFÉ<strong>", "NAME<qualité>", "Ünï<x>", "naïve_x<ß>"]).map(S("annotation_u")),
         st.builds(lambda a, bs: f"{a}<{','.join(bs)}>", WORD, st.lists(WORD, min_size=0, max_size=3)).map(S("constructor")),
         st.lists(WORD, min_size=2, max_size=4).map(" ".join).map(S("multiword")),
         st.builds(lambda w0, ts: " ".join([w0] + ts), WORD,
